@@ -279,7 +279,8 @@ class extract_visitor(NodeVisitor):
             for nn, _idx in get_indexes_for_target(g.target, [], []):
                 name = nn  # type: ast.Name # type: ignore[assignment]
                 name.flow = pp  # type: ignore[attr-defined]
-                p.add_name(AssignedName(name.id, np(node), np(name), g.iter))
+                # a comprehension variable does not hide an outer name in the rest of the scope
+                p.add_name(AssignedName(name.id, np(node), np(name), g.iter), local=PY2)
 
             if g.ifs:
                 for inode in g.ifs:
